@@ -358,6 +358,18 @@ func checkC11(c c11Case) (ci caseInfo, err error) {
 				continue
 			}
 			buf := append([]byte(nil), p.snap.bytes...)
+			if p.msg != nil && p.model != nil && !p.model.HasVariables() && op.C%2 == 1 {
+				// the same message written with three length bytes everywhere (legal, non-minimal)
+				mm := &model.Msg{Session: p.msg.SessionID(), Stream: p.msg.StreamCode(), Function: p.msg.FunctionCode(), Wait: p.msg.WaitBit() == "true", Item: p.model}
+				copy(mm.System[:], p.msg.SystemBytes())
+				nlb := make([]int, 64)
+				for i := range nlb {
+					nlb[i] = 3
+				}
+				if enc, _, err := model.RefEncodeMsg(mm, &model.EncOpts{NLB: nlb}); err == nil {
+					buf = enc
+				}
+			}
 			dec, ok := hsms.Parse(buf)
 			if ok {
 				derivations++
